@@ -534,7 +534,11 @@ impl<'a> VisitMut for AssocResolver<'a> {
             let m = p.segments[2].ident.to_string();
             if let Some(x) = self.assoc.get(&a) {
                 let xty = x.rsplit("::").next().unwrap_or(x).trim().to_string();
-                match self.bounds.get(&(self.tr.to_string(), a.clone())) {
+                let bound = self.bounds.get(&(self.tr.to_string(), a.clone())).or_else(|| {
+                    // the associated type may be declared by a supertrait
+                    self.bounds.iter().find(|((_, an), _)| an == &a).map(|(_, b)| b)
+                });
+                match bound {
                     Some(b) => {
                         let (_, id) = trait_method_name(self.fns, b, &xty, &m);
                         self.need.push((b.clone(), xty.clone()));
@@ -1239,10 +1243,19 @@ fn main() {
             if !done.insert((tr.clone(), ty.clone())) {
                 continue;
             }
-            let (assoc, overridden, igen, iself) = match c.trait_impls.iter().find(|t| t.trait_name == tr && t.type_name == ty) {
+            let (mut assoc, overridden, igen, iself) = match c.trait_impls.iter().find(|t| t.trait_name == tr && t.type_name == ty) {
                 Some(ti) => (ti.assoc.clone(), ti.overridden.clone(), ti.impl_generics.clone(), ti.impl_self_ty.clone()),
                 None => (BTreeMap::new(), BTreeSet::new(), String::new(), ty.clone()),
             };
+            // associated types may be declared in the impl of a supertrait for the same type
+            // (`impl FungibleToken for T { type ContractType = Vault; }` + `impl FungibleVault for T {}`)
+            for tj in &c.trait_impls {
+                if tj.type_name == ty {
+                    for (k, v) in &tj.assoc {
+                        assoc.entry(k.clone()).or_insert(v.clone());
+                    }
+                }
+            }
             let defaults: Vec<FnRec> = c.fns.iter().filter(|f| f.in_trait_decl && f.trait_name.as_deref() == Some(tr.as_str())).cloned().collect();
             for f in defaults {
                 let name = f.sig.ident.to_string();
